@@ -100,8 +100,13 @@ class LDMMaintenance:
         data_object : dict
         """
         try:
+            # Only the content (dataObject) of the stored record is replaced; application id,
+            # timestamp, location and validity stay as they were added.
+            record = self.data_containers.get(index=data_object_id)
+            updated_record = dict(record) if record is not None else {}
+            updated_record["dataObject"] = data_object
             self.data_containers.update(
-                data_object,
+                updated_record,
                 index=data_object_id,
             )
             self.logging.debug("Data container updated: %s", data_object_id)
